@@ -303,6 +303,91 @@ func init() {
 				addDN(encTLV(0x30, concat(rdns...)), "random")
 			}
 		}
+		// ---- revocation-list lints and the OCSP lint against their full models (Kernels/Crl.v)
+		{
+			crlLints := []string{"e_cab_crl_reason_code_not_critical", "e_cab_crl_has_valid_reason_code", "e_crl_next_update_invalid", "e_crl_unique_revoked_certificate",
+				"e_crl_has_authority_key_identifier", "e_crl_has_next_update", "e_crl_missing_crl_number", "e_crl_has_valid_reason_code"}
+			cfgOff, _ := lint.NewConfigFromString("[e_crl_next_update_invalid]\nSubscriberCRL = false\n")
+			corpus := loadCorpus()
+			seen := map[string]bool{}
+			for _, cc := range append(realCRLVariants(corpus), crlZoo()...) {
+				crl := cc.CRL
+				for ci, cfg := range []lint.Configuration{lint.NewEmptyConfig(), cfgOff} {
+					var es []string
+					for _, rc := range crl.RevokedCertificates {
+						reason := "None"
+						if rc.ReasonCode != nil {
+							reason = fmt.Sprintf("(Some %s)", cqZ(int64(*rc.ReasonCode)))
+						}
+						crit := false
+						for _, ext := range rc.Extensions {
+							if ext.Id.Equal(util.ReasonCodeOID) && ext.Critical {
+								crit = true
+							}
+						}
+						es = append(es, fmt.Sprintf("(mkEntry %s %s %s)", cqZs(rc.SerialNumber.String()), reason, cqBool(crit)))
+					}
+					entries := cqList(es)
+					if len(es) == 0 {
+						entries = "(@nil crl_entry)"
+					}
+					aki, num := false, false
+					for _, ext := range crl.Extensions {
+						if ext.Id.Equal(util.AuthkeyOID) {
+							aki = true
+						}
+						if ext.Id.Equal(util.CRLNumberOID) {
+							num = true
+						}
+					}
+					view := fmt.Sprintf("(mkCrlView %s %s %s %s %s %s %s)", entries, cqBool(!crl.NextUpdate.IsZero()), cqBool(crl.NextUpdate.After(crl.ThisUpdate.AddDate(0, 0, 10))),
+						cqBool(crl.NextUpdate.After(crl.ThisUpdate.AddDate(0, 12, 0))), cqBool(aki), cqBool(num), cqBool(ci == 0))
+					sts := make([]string, len(crlLints))
+					tag := ""
+					for i, n := range crlLints {
+						st := -3
+						if l := lint.GlobalRegistry().RevocationListLints().ByName(n); l != nil {
+							func() {
+								defer func() {
+									if recover() != nil {
+										st = -1
+									}
+								}()
+								st = statusOrPanic(l.Execute(crl, cfg))
+							}()
+						}
+						if st == 2 {
+							st = -9 // dated before the lint's effective date
+						}
+						sts[i] = cqZ(int64(st))
+						tag += fmt.Sprint(st)
+					}
+					term := fmt.Sprintf("(%s, %s)", view, cqList(sts))
+					if !seen[term] {
+						seen[term] = true
+						out.Add("crl", Case{Coq: term, Tag: tag, Desc: map[string]interface{}{"crl": cc.File, "subscriber_config": ci == 0, "statuses": tag}})
+					}
+				}
+			}
+			for _, cc := range append(realOCSPVariants(corpus), ocspZoo()...) {
+				st := -3
+				if l := lint.GlobalRegistry().OcspResponseLints().ByName("e_this_update_not_after_produced_at"); l != nil {
+					func() {
+						defer func() {
+							if recover() != nil {
+								st = -1
+							}
+						}()
+						st = statusOrPanic(l.Execute(cc.Resp, lint.NewEmptyConfig()))
+					}()
+				}
+				if st == 2 {
+					continue
+				}
+				out.Add("ocsp", Case{Coq: fmt.Sprintf("(%s, %s, %s)", instantZ(cc.Resp.ThisUpdate), instantZ(cc.Resp.ProducedAt), cqZ(int64(st))), Tag: fmt.Sprint(st),
+					Desc: map[string]interface{}{"response": cc.File, "thisUpdate": cc.Resp.ThisUpdate.String(), "producedAt": cc.Resp.ProducedAt.String(), "status": st}})
+			}
+		}
 		// ---- what the parser lets through: validity fields of many shapes spliced into a real certificate; every
 		// GeneralizedTime the parser accepts must satisfy the guard the theorems need (at least 5 octets)
 		{
